@@ -188,7 +188,7 @@ Theorem plan_types n o i f p :
   type_ok (o_itype o) (o_input o) (reader_type (p_reader p)) = true /\
   type_ok (o_otype o) (o_output o) (writer_type (p_writer p)) = true /\ writable (writer_type (p_writer p)) = true.
 Proof.
-  unfold plan. destruct (text_eqb n (T "convert")); [|discriminate].
+  unfold plan. rewrite is_subcommand. destruct (text_eqb n (T "convert")); [|discriminate].
   destruct (convert o i f) eqn:C; [|discriminate]. intro H; inversion H; subst.
   destruct (convert_ok _ _ _ _ C) as (rt & wt & R & W & <- & <- & Wr & _).
   rewrite <- !types_iff. auto.
